@@ -131,6 +131,8 @@ def gen_mol_spec(rng, cfg, small=False):
 
 
 def gen_record_spec(rng, cfg, allow_rxn):
+    if rng.random() < cfg.get('bad_p', 0.0):
+        return {'k': 'bad', 'what': rng.randrange(5)}
     if allow_rxn and rng.random() < cfg.get('rxn_share', 0.5):
         shape = rng.choice([(1, 1, 0), (2, 1, 0), (1, 2, 1), (1, 1, 1), (0, 1, 0), (1, 0, 0), (0, 0, 1), (2, 2, 2), (0, 1, 1)])
         spec = {'k': 'rxn', 'r': [gen_mol_spec(rng, cfg, True) for _ in range(shape[0])],
@@ -230,8 +232,15 @@ def build_mol(spec):
     return m
 
 
+class BadRecord:
+    """Marker for an object no writer can accept (it must be refused with TypeError / ValueError, nothing else may happen)."""
+
+
 def build_record(spec):
     from chython.containers import ReactionContainer
+    if spec['k'] == 'bad':
+        from chython import smarts
+        return [ 'CCO', 42, smarts('CO'), None, BadRecord() ][spec.get('what', 0) % 5]
     if spec['k'] != 'rxn':
         return build_mol(spec)
     groups = []
